@@ -1131,6 +1131,9 @@ func (t *Tr) appendBuiltin(c *ssa.CallCommon, res ssa.Value, pos token.Pos) {
 		return fmt.Sprintf("(ite (< %s %s) (select %s (+ %s %s)) %s)", rel, slen, oldRow, soff, rel, elemAt(fmt.Sprintf("(- %s %s)", rel, slen)))
 	})
 	t.heapSet(t.cur, hn, hs, fmt.Sprintf("(store %s %s %s)", h, nbase, row))
+	// ground instances of the update for the first appended element (a valid
+	// instance of the range axiom; gives the solvers a term to match on)
+	t.assume(fmt.Sprintf("(=> (> %s 0) (= (select %s %s) %s))", addLen, row, linNorm(fmt.Sprintf("(+ %s %s)", noff, slen)), elemAt("0")))
 	t.setVal(res, fmt.Sprintf("(mk-slice %s %s %s %s)", nbase, noff, newLen, ncap))
 	_ = pos
 }
